@@ -27,6 +27,7 @@ type vfRtTimer struct {
 	payload string
 	d       time.Duration
 	cancel  bool
+	cancel2 bool // cancelled through the restarted crew (only timers due an hour later)
 }
 
 func runC17SioRestart(c *sim.Ctx, t *testing.T) {
@@ -36,6 +37,12 @@ func runC17SioRestart(c *sim.Ctx, t *testing.T) {
 	for i := range timers {
 		timers[i] = &vfRtTimer{id: fmt.Sprintf("t%d", i), payload: fmt.Sprintf("p%d", i), d: delays[c.Intn(len(delays), "d")], cancel: c.Chance(1, 5, "cancel")}
 	}
+	for _, tm := range timers {
+		if tm.d == time.Hour && !tm.cancel && c.Bool("cancel2") {
+			tm.cancel2 = true
+		}
+	}
+	make2 := c.Bool("make2") // a new timer is requested from the restarted crew
 	crashAfter := []time.Duration{0, 5 * time.Millisecond, 30 * time.Millisecond, 150 * time.Millisecond, 2 * time.Second}[c.Intn(5, "crashafter")]
 	downtime := []time.Duration{time.Millisecond, 40 * time.Millisecond, 500 * time.Millisecond, 3 * time.Second}[c.Intn(4, "downtime")]
 	stallW := c.Intn(2, "stallw")
@@ -141,12 +148,32 @@ func runC17SioRestart(c *sim.Ctx, t *testing.T) {
 				return
 			}
 			cp2in, cp2out := crew2.in, crew2.out
-			_ = cp2in
 			tok := sim.Spawn("h#loop2")
 			go func() { sim.Born(tok); defer sim.Done(tok); crew2.Loop(ctx2) }()
 			tok2 := sim.Spawn("h#consumer2")
 			go func() { sim.Born(tok2); defer sim.Done(tok2); consume(ctx2, cp2out, 2, nil) }()
 			sim.Yield("h#booted")
+			// the restarted crew takes requests like the first one did
+			send2 := func(m map[string]interface{}) {
+				sim.Yield("h#send")
+				select {
+				case <-ctx2.Done():
+				case cp2in <- vfJSONCopy(m):
+				}
+				sim.Yield("h#sent")
+			}
+			sim.Sleep(5 * time.Millisecond)
+			for _, tm := range timers {
+				if tm.cancel2 {
+					send2(map[string]interface{}{"to": "timers", "cancelTimer": tm.id})
+					lg.Add(sim.Ev{Kind: "cancel2", Id: tm.id})
+				}
+			}
+			if make2 {
+				send2(map[string]interface{}{"to": "timers", "makeTimer": map[string]interface{}{"id": "late", "in": "10ms", "msg": map[string]interface{}{"to": "h", "id": "plate"}}})
+				lg.Add(sim.Ev{Kind: "make2", Id: "late"})
+			}
+			send2(map[string]interface{}{"to": "nobody", "id": "flush2"})
 		})
 		s.Run()
 		crash()
@@ -286,7 +313,38 @@ func runC17SioRestart(c *sim.Ctx, t *testing.T) {
 		}
 	}
 	complete := !c.Sched.Exhausted
+	made2 := false
+	cancelled2 := map[string]bool{}
+	for _, e := range evs {
+		switch e.Kind {
+		case "make2":
+			made2 = true
+		case "cancel2":
+			cancelled2[e.Id] = true
+		}
+	}
+	if made2 {
+		n2 := 0
+		for _, f := range fires {
+			if f.payload == "plate" && f.phase == 2 {
+				n2++
+			}
+		}
+		c.Count("timers_made_after_restart")
+		if n2 > 1 || (complete && n2 == 0) {
+			c.Violate("timer:sio:restart:request-after-restart", "a timer requested from the restarted crew (10ms) fired %d times (%s)", n2, desc)
+			return
+		}
+	}
 	for _, tm := range timers {
+		if cancelled2[tm.id] {
+			c.Count("timers_cancelled_after_restart")
+			if count2[tm.id] > 0 {
+				c.Violate("timer:sio:restart:cancel-after-restart", "timer %s (due an hour after its creation) was cancelled through the restarted crew and fired all the same (%s)", tm.id, desc)
+				return
+			}
+			continue
+		}
 		c.Count("timers")
 		switch {
 		case pending[tm.id] && count1[tm.id] == 0:
@@ -312,7 +370,7 @@ func runC17SioRestart(c *sim.Ctx, t *testing.T) {
 		}
 	}
 	c.Add("steps_with_choice", c.Sched.Switches)
-	c.Path = fmt.Sprintf("%s|%v|%v|%016x", vfRtString(timers), crashAfter, downtime, c.Sched.Hash)
+	c.Path = fmt.Sprintf("%s|%v|%v|%v|%016x", vfRtString(timers), crashAfter, downtime, make2, c.Sched.Hash)
 	c.Trivial = len(pending) == 0
 	c.Sample = map[string]interface{}{"scenario": desc}
 }
@@ -323,6 +381,9 @@ func vfRtString(ts []*vfRtTimer) string {
 		s := fmt.Sprintf("%s(%v)", t.id, t.d)
 		if t.cancel {
 			s += "x"
+		}
+		if t.cancel2 {
+			s += "y"
 		}
 		parts = append(parts, s)
 	}
